@@ -55,6 +55,8 @@ package spdxexp
 //@   defines[C04] !isErr(result1) ==> (K(source) <==> result0.role == 0)
 //@   ensures[C05] !isErr(result1) <==> (len(source) > 0 && Lexable(source) && TokLen(source) > 0 && sExpr(TokSeq(source), TokLen(source), 0) == TokLen(source))
 //@   ensures[C01,C06,C10] !isErr(result1) ==> result0.tree == tExpr(TokSeq(source), TokLen(source), 0)
+//@   ensures[C05] lexRef: len(source) > 0 && Lexable(source) ==> endK(source, TokLen(source)) && noStopBefore(source, TokLen(source)) && forall j :: 0 <= j && j < TokLen(source) ==> TokSeq(source)[j].role == tokRoleK(source, j) && TokSeq(source)[j].value == tokValK(source, j)
+//@   ensures[C05] lexRefFail: len(source) > 0 && !Lexable(source) ==> exists k :: 0 <= k && errK(source, k) && noStopBefore(source, k)
 //@ end
 
 // Reference grammar at token level (C05), written from the property text:
@@ -180,9 +182,65 @@ package spdxexp
 //@ pred firstOp(r string) = ite(HasPrefix(r, "WITH"), "WITH", ite(HasPrefix(r, "AND"), "AND", ite(HasPrefix(r, "OR"), "OR", ite(HasPrefix(r, "("), "(", ite(HasPrefix(r, ")"), ")", ite(HasPrefix(r, ":"), ":", ite(HasPrefix(r, "+"), "+", "")))))))
 //@ pred spaceBefore(e *expressionStream) = e.index >= 1 && e.expression[e.index - 1:e.index] == " "
 
+// Reference lexer (C05), written from the property text over positions g of the caller's string o.  runLen(t, c) is
+// the length of the maximal prefix of t made of characters of class c (id characters [A-Za-z0-9.-], spaces).
+// At a token start g (spaces already skipped): an operator if one of WITH AND OR ( ) : + prefixes the text (first in
+// that order; '+' right after a space is an error); else DocumentRef-<id run> / LicenseRef-<id run> (an empty run is
+// an error); else the maximal id run, classified by the documented normalisation (C08) with "the next character is
+// '+'" as its second input - unknown ids are errors, a listed X-or-later consumes a following '+', and an unlisted
+// X-or-later yields X followed by a synthesised '+' token.
+//@ pred idLen(o string, g int) = runLen(o[g:], "idch")
+//@ pred lexAt(o string, g int) = o[g:g + idLen(o, g)]
+//@ pred plusAfter(o string, g int) = HasPrefix(o[g + idLen(o, g):], "+")
+// (nCase / nRole / nVal are normCase / normRole / normVal, the documented normalisation defined below with the id
+// lists; the equations are revealed only inside normalizeLicense, everywhere else the three are opaque names)
+//@ fn nCase(l string, np bool) int
+//@ fn nRole(l string, np bool) int
+//@ fn nVal(l string, np bool) string
+//@ axiom[reveal=normalizeLicense] forall l string, np bool {nCase(l, np)} :: nCase(l, np) == normCase(l, np)
+//@ axiom[reveal=normalizeLicense] forall l string, np bool {nRole(l, np)} :: nRole(l, np) == normRole(l, np)
+//@ axiom[reveal=normalizeLicense] forall l string, np bool {nVal(l, np)} :: nVal(l, np) == normVal(l, np)
+//@ pred caseAt(o string, g int) = nCase(lexAt(o, g), plusAfter(o, g))
+//@ pred docAt(o string, g int) = firstOp(o[g:]) == "" && HasPrefix(o[g:], "DocumentRef-")
+//@ pred lrefAt(o string, g int) = firstOp(o[g:]) == "" && !HasPrefix(o[g:], "DocumentRef-") && HasPrefix(o[g:], "LicenseRef-")
+//@ pred idAt(o string, g int) = firstOp(o[g:]) == "" && !HasPrefix(o[g:], "DocumentRef-") && !HasPrefix(o[g:], "LicenseRef-")
+// one step of the reference lexer at the token start g: is it an error (sp: spaces were skipped just before g), the
+// token, the position after it, and whether a synthesised '+' is pending (opaque; the definitions are revealed only
+// where a step is compared with the code, in parseToken)
+//@ fn stepErr(o string, g int, sp bool) bool
+//@ fn stepRole(o string, g int) int
+//@ fn stepVal(o string, g int) string
+//@ fn stepNext(o string, g int) int
+//@ fn stepPend(o string, g int) bool
+//@ axiom[reveal=parseToken] forall o string, g int, sp bool {stepErr(o, g, sp)} :: stepErr(o, g, sp) <==> ite(firstOp(o[g:]) != "", firstOp(o[g:]) == "+" && sp, ite(docAt(o, g), idLen(o, g + 12) == 0, ite(lrefAt(o, g), idLen(o, g + 11) == 0, idLen(o, g) == 0 || caseAt(o, g) == 0)))
+//@ axiom[reveal=parseToken] forall o string, g int {stepRole(o, g)} :: stepRole(o, g) == ite(firstOp(o[g:]) != "", 0, ite(docAt(o, g), 1, ite(lrefAt(o, g), 2, nRole(lexAt(o, g), plusAfter(o, g)))))
+//@ axiom[reveal=parseToken] forall o string, g int {stepVal(o, g)} :: stepVal(o, g) == ite(firstOp(o[g:]) != "", firstOp(o[g:]), ite(docAt(o, g), lexAt(o, g + 12), ite(lrefAt(o, g), lexAt(o, g + 11), nVal(lexAt(o, g), plusAfter(o, g)))))
+//@ axiom[reveal=parseToken] forall o string, g int {stepNext(o, g)} :: stepNext(o, g) == ite(firstOp(o[g:]) != "", g + len(firstOp(o[g:])), ite(docAt(o, g), g + 12 + idLen(o, g + 12), ite(lrefAt(o, g), g + 11 + idLen(o, g + 11), g + idLen(o, g) + ite(caseAt(o, g) == 3, 1, 0))))
+//@ axiom[reveal=parseToken] forall o string, g int {stepPend(o, g)} :: stepPend(o, g) <==> (idAt(o, g) && caseAt(o, g) == 4)
+
+// The token sequence of the reference lexer: posK(o, k) is the position in o after k tokens, pendK(o, k) whether the
+// k-th token is the synthesised '+'; token k is read at skipTo(o, posK(o, k)) (spaces skipped), the sequence ends at
+// the first k where nothing but spaces is left (endK) or the step is an error (errK).
+//@ pred skipTo(o string, g int) = g + runLen(o[g:], "space")
+//@ def[2] posK(o string, k int) int = ite(k <= 0, 0, ite(pendK(o, k - 1), posK(o, k - 1), stepNext(o, skipTo(o, posK(o, k - 1)))))
+//@ def[2] pendK(o string, k int) bool = ite(k <= 0, false, ite(pendK(o, k - 1), false, stepPend(o, skipTo(o, posK(o, k - 1)))))
+//@ pred tokRoleK(o string, k int) = ite(pendK(o, k), 0, stepRole(o, skipTo(o, posK(o, k))))
+//@ pred tokValK(o string, k int) = ite(pendK(o, k), "+", stepVal(o, skipTo(o, posK(o, k))))
+//@ pred endK(o string, k int) = !pendK(o, k) && skipTo(o, posK(o, k)) >= len(o)
+//@ pred errK(o string, k int) = !pendK(o, k) && skipTo(o, posK(o, k)) < len(o) && stepErr(o, skipTo(o, posK(o, k)), runLen(o[posK(o, k):], "space") > 0)
+// noStopBefore(o, k): none of the tokens 0..k-1 is an end or an error (the reference lexer really produces k tokens)
+//@ def[2] noStopBefore(o string, k int) bool = ite(k <= 0, true, noStopBefore(o, k - 1) && !endK(o, k - 1) && !errK(o, k - 1))
+// the reference lexer stops exactly once: the first k that is an end or an error is unique, so "ends after n tokens
+// without error" and "fails at token k" exclude each other and each determines its index
+//@ lemma[C05,induct,lemmaonly,abstract=endK|errK] noStopPrefix: forall o string, k int, j int {noStopBefore(o, k), endK(o, j)} :: 0 <= j && j < k && noStopBefore(o, k) ==> !endK(o, j) && !errK(o, j)
+//@ lemma[C05,lemmaonly] firstStopUnique: forall o string, k1 int, k2 int :: 0 <= k1 && 0 <= k2 && noStopBefore(o, k1) && (endK(o, k1) || errK(o, k1)) && noStopBefore(o, k2) && (endK(o, k2) || errK(o, k2)) ==> k1 == k2
+//@ pred lexState(e *expressionStream, o string, k int) = ite(pendK(o, k), pend(e, o) && e.index + e.removed + 1 == posK(o, k), syncd(e, o) && e.index + e.removed == posK(o, k))
+
 //@ func scan
 //@   modifies nothing
 //@   ghostlet orig = expression
+//@   ensures[C05] lexOK: !isErr(result1) ==> endK(expression, len(result0)) && noStopBefore(expression, len(result0)) && forall j :: 0 <= j && j < len(result0) ==> result0[j].role == tokRoleK(expression, j) && result0[j].value == tokValK(expression, j)
+//@   ensures[C05] lexFail: isErr(result1) ==> exists k :: 0 <= k && errK(expression, k) && noStopBefore(expression, k)
 //@   defines[C05] !isErr(result1) <==> Lexable(expression)
 //@   defines[C05] !isErr(result1) ==> len(result0) == TokLen(expression) && elems(result0) == TokSeq(expression)
 //@   ensures[C06,C07] !isErr(result1) ==> okToks(result0)
@@ -191,6 +249,17 @@ package spdxexp
 //@     invariant[C03] tokens == nil || fresh(tokens)
 //@     invariant[C05,C15] rel(exp, orig) && !isErr(exp.err)
 //@     invariant[C06,C07] okToks(tokens)
+//@     invariant[C05] lexState(exp, orig, len(tokens)) && !spaceBefore(exp)
+//@     invariant[C05] forall j :: 0 <= j && j < len(tokens) ==> tokens[j].role == tokRoleK(orig, j) && tokens[j].value == tokValK(orig, j)
+//@     invariant[C05] noStopBefore(orig, len(tokens))
+//@   assert[C05] after append#0: lastTok: len(ret) == len(tokens) + 1 && ret[len(tokens)].role == tokRoleK(orig, len(tokens)) && ret[len(tokens)].value == tokValK(orig, len(tokens))
+//@   assert[C05] after (*expressionStream).skipWhitespace#0: skipPend: pendK(orig, len(tokens)) ==> pend(exp, orig) && exp.index + exp.removed + 1 == posK(orig, len(tokens)) && !spaceBefore(exp)
+//@   assert[C05] after (*expressionStream).skipWhitespace#0: skipSync: !pendK(orig, len(tokens)) ==> syncd(exp, orig) && exp.index + exp.removed == skipTo(orig, posK(orig, len(tokens)))
+//@   assert[C05] after (*expressionStream).skipWhitespace#0: skipSpace: !pendK(orig, len(tokens)) ==> (spaceBefore(exp) <==> runLen(orig[posK(orig, len(tokens)):], "space") > 0)
+//@   assert[C05] after (*expressionStream).skipWhitespace#0: endSeen: exp.index >= len(exp.expression) ==> endK(orig, len(tokens))
+//@   assert[C05] call (*expressionStream).parseToken#0: notEnd: !endK(orig, len(tokens))
+//@   assert[C05] after (*expressionStream).parseToken#0: stepFails: isErr(exp.err) ==> errK(orig, len(tokens))
+//@   assert[C05] after (*expressionStream).parseToken#0: stepDone: !isErr(exp.err) ==> ret != nil && ret.role == tokRoleK(orig, len(tokens)) && ret.value == tokValK(orig, len(tokens)) && !errK(orig, len(tokens)) && lexState(exp, orig, len(tokens) + 1) && !spaceBefore(exp)
 //@ end
 
 //@ func (*expressionStream).parseToken
@@ -201,6 +270,11 @@ package spdxexp
 //@   ensures[C03] okExp(exp)
 //@   ensures[C05,C15] !isErr(exp.err) ==> rel(exp, orig) && exp.index > old(exp.index) - 9
 //@   ensures[C06,C07] !isErr(exp.err) && result != nil ==> okTok(result)
+//@   ensures[C05] tokPend: old(pend(exp, orig)) && old(!spaceBefore(exp)) ==> !isErr(exp.err) && result != nil && result.role == 0 && result.value == "+" && syncd(exp, orig) && exp.index + exp.removed == old(exp.index + exp.removed) + 1
+//@   ensures[C05] tokErr: old(syncd(exp, orig)) ==> (isErr(exp.err) <==> stepErr(orig, old(exp.index + exp.removed), old(spaceBefore(exp))))
+//@   ensures[C05] tokVal: old(syncd(exp, orig)) && !isErr(exp.err) ==> result != nil && result.role == stepRole(orig, old(exp.index + exp.removed)) && result.value == stepVal(orig, old(exp.index + exp.removed))
+//@   ensures[C05] tokNext: old(syncd(exp, orig)) && !isErr(exp.err) ==> ite(stepPend(orig, old(exp.index + exp.removed)), pend(exp, orig) && exp.index + exp.removed + 1 == stepNext(orig, old(exp.index + exp.removed)), syncd(exp, orig) && exp.index + exp.removed == stepNext(orig, old(exp.index + exp.removed)))
+//@   ensures[C05] noSpace: !isErr(exp.err) ==> !spaceBefore(exp)
 //@ end
 
 //@ func (*expressionStream).readOperator
@@ -217,6 +291,7 @@ package spdxexp
 //@   ensures[C05] result == nil && !isErr(exp.err) ==> firstOp(old(exp.expression[exp.index:])) == ""
 //@   ensures[C05] isErr(exp.err) <==> (firstOp(old(exp.expression[exp.index:])) == "+" && old(spaceBefore(exp)))
 //@   ensures[C05] isErr(exp.err) ==> exp.index == old(exp.index)
+//@   ensures[C05] result != nil ==> !spaceBefore(exp)
 //@   loop 0:
 //@     invariant[C03] okExp(exp) && exp.err == old(exp.err)
 //@     invariant[C03] len(op) == 0 && exp.index == old(exp.index)
@@ -234,6 +309,8 @@ package spdxexp
 //@   ensures[C03] isErr(exp.err) <==> (isErr(old(exp.err)) || len(result) == 0)
 //@   ensures[C06,C07] len(result) > 0 ==> inRe(result, "idch+")
 //@   ensures[C05,C15] syncd(exp, orig) && result == exp.expression[old(exp.index):exp.index] && result == orig[old(exp.index) + exp.removed:exp.index + exp.removed]
+//@   ensures[C05] idRun: len(result) == idLen(orig, old(exp.index + exp.removed))
+//@   ensures[C05] len(result) > 0 ==> !spaceBefore(exp)
 //@   assert[C15] call fmt.Sprintf#0: 0 <= arg1 && arg1 <= len(orig) && arg1 == exp.index + exp.removed
 //@ end
 
@@ -246,6 +323,11 @@ package spdxexp
 //@   ensures[C03] result == nil && !isErr(exp.err) ==> exp.index == old(exp.index)
 //@   ensures[C05,C15] !isErr(exp.err) ==> syncd(exp, orig) && exp.index >= old(exp.index)
 //@   ensures[C06,C07] result != nil ==> result.role == 1 && okTok(result)
+//@   requires[C05] !isErr(exp.err)
+//@   ensures[C05] result != nil ==> !spaceBefore(exp)
+//@   ensures[C05] docNone: result == nil && !isErr(exp.err) ==> !HasPrefix(orig[old(exp.index + exp.removed):], "DocumentRef-")
+//@   ensures[C05] docErr: isErr(exp.err) ==> HasPrefix(orig[old(exp.index + exp.removed):], "DocumentRef-") && idLen(orig, old(exp.index + exp.removed) + 12) == 0
+//@   ensures[C05] docTok: result != nil ==> !isErr(exp.err) && HasPrefix(orig[old(exp.index + exp.removed):], "DocumentRef-") && idLen(orig, old(exp.index + exp.removed) + 12) > 0 && result.value == lexAt(orig, old(exp.index + exp.removed) + 12) && exp.index + exp.removed == old(exp.index + exp.removed) + 12 + idLen(orig, old(exp.index + exp.removed) + 12)
 //@ end
 
 //@ func (*expressionStream).readLicenseRef
@@ -257,6 +339,11 @@ package spdxexp
 //@   ensures[C03] result == nil && !isErr(exp.err) ==> exp.index == old(exp.index)
 //@   ensures[C05,C15] !isErr(exp.err) ==> syncd(exp, orig) && exp.index >= old(exp.index)
 //@   ensures[C06,C07] result != nil ==> result.role == 2 && okTok(result)
+//@   requires[C05] !isErr(exp.err)
+//@   ensures[C05] result != nil ==> !spaceBefore(exp)
+//@   ensures[C05] lrefNone: result == nil && !isErr(exp.err) ==> !HasPrefix(orig[old(exp.index + exp.removed):], "LicenseRef-")
+//@   ensures[C05] lrefErr: isErr(exp.err) ==> HasPrefix(orig[old(exp.index + exp.removed):], "LicenseRef-") && idLen(orig, old(exp.index + exp.removed) + 11) == 0
+//@   ensures[C05] lrefTok: result != nil ==> !isErr(exp.err) && HasPrefix(orig[old(exp.index + exp.removed):], "LicenseRef-") && idLen(orig, old(exp.index + exp.removed) + 11) > 0 && result.value == lexAt(orig, old(exp.index + exp.removed) + 11) && exp.index + exp.removed == old(exp.index + exp.removed) + 11 + idLen(orig, old(exp.index + exp.removed) + 11)
 //@ end
 
 //@ func (*expressionStream).readLicense
@@ -269,6 +356,15 @@ package spdxexp
 //@   ensures[C06,C07] result != nil ==> okTok(result)
 //@   ensures[C05,C15] !isErr(exp.err) ==> rel(exp, orig) && exp.index > old(exp.index) - 9
 //@   assert[C15] call fmt.Sprintf#0: 0 <= arg2 && arg2 + len(arg1) <= len(orig) && orig[arg2:arg2 + len(arg1)] == arg1
+//@   requires[C05] !isErr(exp.err)
+//@   ensures[C05] !isErr(exp.err) ==> !spaceBefore(exp)
+//@   ensures[C05] licErr: isErr(exp.err) <==> (idLen(orig, old(exp.index + exp.removed)) == 0 || caseAt(orig, old(exp.index + exp.removed)) == 0)
+//@   ensures[C05] licTok: !isErr(exp.err) ==> result != nil && result.role == nRole(lexAt(orig, old(exp.index + exp.removed)), plusAfter(orig, old(exp.index + exp.removed))) && result.value == nVal(lexAt(orig, old(exp.index + exp.removed)), plusAfter(orig, old(exp.index + exp.removed)))
+//@   ensures[C05] licNext4: !isErr(exp.err) && caseAt(orig, old(exp.index + exp.removed)) == 4 ==> pend(exp, orig) && exp.index + exp.removed + 1 == old(exp.index + exp.removed) + idLen(orig, old(exp.index + exp.removed))
+//@   ensures[C05] licNext3: !isErr(exp.err) && caseAt(orig, old(exp.index + exp.removed)) == 3 ==> syncd(exp, orig) && exp.index + exp.removed == old(exp.index + exp.removed) + idLen(orig, old(exp.index + exp.removed)) + 1
+//@   ensures[C05] licNext0: !isErr(exp.err) && caseAt(orig, old(exp.index + exp.removed)) != 3 && caseAt(orig, old(exp.index + exp.removed)) != 4 ==> syncd(exp, orig) && exp.index + exp.removed == old(exp.index + exp.removed) + idLen(orig, old(exp.index + exp.removed))
+//@   assert[C05] call (*expressionStream).normalizeLicense#0: plusSeen: npAt(exp) <==> plusAfter(orig, exp.index + exp.removed - len(license))
+//@   assert[C05] call (*expressionStream).normalizeLicense#0: lexSeen: license == lexAt(orig, exp.index + exp.removed - len(license)) && len(license) == idLen(orig, exp.index + exp.removed - len(license))
 //@ end
 
 //@ func (*expressionStream).normalizeLicense
@@ -285,6 +381,11 @@ package spdxexp
 //@   ensures[C05,C08] result != nil && normCase(license, old(npAt(exp))) != 3 && normCase(license, old(npAt(exp))) != 4 ==> exp.index == old(exp.index) && exp.expression == old(exp.expression) && exp.removed == old(exp.removed)
 //@   ensures[C05,C08] result != nil && normCase(license, old(npAt(exp))) == 3 ==> exp.index == old(exp.index) + 1 && exp.expression == old(exp.expression) && exp.removed == old(exp.removed)
 //@   ensures[C05,C08] result != nil && normCase(license, old(npAt(exp))) == 4 ==> exp.index == old(exp.index) - 9 && exp.removed == old(exp.removed) + 8 && pend(exp, orig)
+//@   ensures[C05] result != nil && normCase(license, old(npAt(exp))) != 4 ==> syncd(exp, orig)
+//@   ensures[C05] opq: (result != nil <==> nCase(license, old(npAt(exp))) != 0) && (result != nil ==> result.role == nRole(license, old(npAt(exp))) && result.value == nVal(license, old(npAt(exp))))
+//@   ensures[C05] opqNext: result != nil ==> ite(nCase(license, old(npAt(exp))) == 4, exp.index == old(exp.index) - 9 && exp.removed == old(exp.removed) + 8 && pend(exp, orig), syncd(exp, orig) && exp.removed == old(exp.removed) && exp.index == old(exp.index) + ite(nCase(license, old(npAt(exp))) == 3, 1, 0))
+//@   ensures[C05] result != nil ==> !spaceBefore(exp)
+//@   assert[C05] after licenseLookup#3: adjNonEmpty: ret != nil ==> len(license) >= 10
 //@   ensures[C06,C07] result != nil ==> okTok(result)
 //@   ensures[C09,C06] result != nil ==> (result.role == 3 || result.role == 4) && (occc(ActiveSeq(), ActiveLen(), result.value) || occc(ExceptionSeq(), ExceptionLen(), result.value) || occc(DeprecatedSeq(), DeprecatedLen(), result.value))
 //@ end
@@ -395,6 +496,12 @@ package spdxexp
 // what the code computes: the rule, or (same exception and) canonical strings equal up to letter case
 //@ pred matchT(a Tree, b Tree) = licMatch(a, b) || refMatch(a, b) || (isTLic(a) && isTLic(b) && excOK(a, b) && EqualFold(reconT(a), reconT(b)))
 //@ axiom forall x string {EqualFold(x, x)} :: EqualFold(x, x)
+// only the empty string folds to the empty string (assumed about strings.EqualFold); no listed id is empty (table
+// hypothesis, ground-evaluated on every run: noEmptyId)
+//@ axiom forall x string {EqualFold(x, "")} :: EqualFold(x, "") ==> x == ""
+//@ axiom forall k int {ActiveSeq()[k]} :: 0 <= k && k < ActiveLen() ==> ActiveSeq()[k] != ""
+//@ axiom forall k int {ExceptionSeq()[k]} :: 0 <= k && k < ExceptionLen() ==> ExceptionSeq()[k] != ""
+//@ axiom forall k int {DeprecatedSeq()[k]} :: 0 <= k && k < DeprecatedLen() ==> DeprecatedSeq()[k] != ""
 //@ axiom forall x string, y string {EqualFold(x, y)} :: EqualFold(x, y) ==> EqualFold(y, x)
 //@ axiom forall x string, y string, z string {EqualFold(x, y), EqualFold(y, z)} :: EqualFold(x, y) && EqualFold(y, z) ==> EqualFold(x, z)
 // '+' has no case-folding partner: strings equal under simple folding contain it or not together (assumed about strings.EqualFold)
@@ -547,9 +654,9 @@ package spdxexp
 //@ axiom forall y Tree, c seq[string], n int {inLc(y, c, n)} :: inLc(y, c, n) ==> 0 <= inLw(y, c, n) && inLw(y, c, n) < n && Ptree(c[inLw(y, c, n)]) == y
 //@ axiom forall y Tree, c seq[string], n int, k int {inLc(y, c, n), c[k]} :: 0 <= k && k < n && Ptree(c[k]) == y ==> inLc(y, c, n)
 //@ pred denotesSubset(c1 seq[string], n1 int, c2 seq[string], n2 int) = forall k :: 0 <= k && k < n1 ==> inLc(Ptree(c1[k]), c2, n2)
-//@ lemma[C07] coveredMonotone: forall t Tree, c1 seq[string], n1 int, c2 seq[string], n2 int {covLc(t, c1, n1), covLc(t, c2, n2)} :: denotesSubset(c1, n1, c2, n2) && covLc(t, c1, n1) ==> covLc(t, c2, n2)
-//@ lemma[C07,induct] verdictMonotone: forall c1 seq[string], n1 int, c2 seq[string], n2 int, t Tree {semL(t, c1, n1), semL(t, c2, n2)} :: denotesSubset(c1, n1, c2, n2) && semL(t, c1, n1) ==> semL(t, c2, n2)
-//@ lemma[C07] verdictOfSet: forall c1 seq[string], n1 int, c2 seq[string], n2 int, t Tree {semL(t, c1, n1), semL(t, c2, n2)} :: denotesSubset(c1, n1, c2, n2) && denotesSubset(c2, n2, c1, n1) ==> (semL(t, c1, n1) <==> semL(t, c2, n2))
+//@ lemma[C07,lemmaonly] coveredMonotone: forall t Tree, c1 seq[string], n1 int, c2 seq[string], n2 int {covLc(t, c1, n1), covLc(t, c2, n2)} :: denotesSubset(c1, n1, c2, n2) && covLc(t, c1, n1) ==> covLc(t, c2, n2)
+//@ lemma[C07,induct,lemmaonly] verdictMonotone: forall c1 seq[string], n1 int, c2 seq[string], n2 int, t Tree {semL(t, c1, n1), semL(t, c2, n2)} :: denotesSubset(c1, n1, c2, n2) && semL(t, c1, n1) ==> semL(t, c2, n2)
+//@ lemma[C07,lemmaonly] verdictOfSet: forall c1 seq[string], n1 int, c2 seq[string], n2 int, t Tree {semL(t, c1, n1), semL(t, c2, n2)} :: denotesSubset(c1, n1, c2, n2) && denotesSubset(c2, n2, c1, n1) ==> (semL(t, c1, n1) <==> semL(t, c2, n2))
 
 // The verdict is the Boolean function the expression denotes (C10): AND / OR decompose, and the laws of Boolean
 // algebra hold for semL at tree level (theorems about the spec function; together with verdictIsSemL they are
